@@ -2,7 +2,10 @@ SPEC = {
     "id": "C04",
     "level_text": "Theorems (Coq, all event lists over any number of interfaces): the k-th RA generation on any of the seven paths reads the forwarding flag in force at that moment (last flip of that interface, exactly one State read) and yields router lifetime = configured (0 on the final path) if forwarding else 0, the rest of the RA as configured, InterfaceNotForwarding reported iff not forwarding and configured lifetime > 0 (log line on advertiser paths, gauge on the scrape path), forwarding gauge = flag; nothing reported when forwarding or when default_lifetime = 0; outputs of one interface are independent of the events of all others; a monitoring / unused interface (scrape path ScrapeIdle: no RA is generated) exports its own forwarding flag and never a misconfiguration, whatever is listed before it (C04_idle_interface); a generation whose State read fails (GenFail: the failure is an input of the event) yields no RA at all on any path, flag on or off (C04_read_failure). The model is tied to config.Interface.RouterAdvertisement, Advertiser.buildRA and its callers, Metrics.constScrape and crhttp's interfaces handler by running the real advertisers under virtual time against random histories of forwarding flips.",
     "level_note": "Trusted: Coq kernel + vm_compute; the synctest driver (fake conn, recording State, production wiring of metrics and debug handler); go1.26.8 testing/synctest. The RA built from configuration + plugins is an input (C01); only static plugins are used so that it is constant along a history. Log lines are recognised by the words 'IPv6 forwarding' and attributed to generations in order.",
-    "drivers": [{"pkg": "internal/corerad", "test": "TestVerifC04", "newgo": True, "timeout": 900}],
+    "drivers": [{"pkg": "internal/corerad", "test": "TestVerifC04", "newgo": True, "timeout": 900},
+                # the real operating-system State behind the forwarding flag: agreement with the sysctl files, error
+                # classes, concurrent reads of different interfaces never mix
+                {"pkg": "internal/system", "test": "TestVerifState", "newgo": True, "timeout": 600}],
     "rule": "generated accepted configurations with 1-3 advertising interfaces and 0-2 monitoring / unused interfaces (an unused stanza may carry a full "
             "advertising configuration) inserted anywhere in the interface list, half of them after every advertising interface; their forwarding flags "
             "flip like the others and every scrape is also observed for them (own forwarding gauge, no misconfiguration series at all) (default_lifetime absent / auto / 0s / = max_interval / "
